@@ -20,6 +20,21 @@ CHECKS = {
  'C14': dict(cat='model_checking', engine='cbmc', technique='CBMC unit-step harnesses on orcparse.c/orcutils.c/orcprogram.c: each parser step (line split, tokenizer, every directive handler via the dispatcher, opcode lines, _strtoll, literal classification, error vector) from a symbolic parser state; induction over lines',
              text='Memory safety, progress (read position strictly advances), bounded token/variable/instruction tables and error-record post-conditions for every line step from any parser state within the bounds; whole files follow by induction over lines.',
              note='strtod/strtol/vasprintf stubbed by their contracts; 4-entry opcode table with the real operand shapes; fill levels of tables enumerated (cap-1, cap), content symbolic; tokens <=3 bytes.', ref='DESIGN.md#c14'),
+ 'C01': dict(cat='translation_validation', engine='x86sym', technique='symbolic execution of the emitted x86-64 machine code (own executor over objdump decoding, z3) with symbolic n, data, parameters and base-pointer residues; per-path equality with the composed emulation oracle decided by z3 (syntactic normalisation, operand-wise and ite/FP congruence abstraction, then full query)',
+             text='For each program of the family and each of sse/avx/mmx: on every feasible path (head/main/tail split for every n<=bound and alignment) destination elements, untouched bytes and accumulators equal the emulation oracle for all data.',
+             note='x86sym semantics validated against the host CPU; oracle = reference semantics composed like orc_executor_emulate (emulator==reference is C02); float element equality is C18; divluw data path and ldres* outside.', ref='DESIGN.md#c01'),
+ 'C02': dict(cat='model_checking', engine='irsym', technique='symbolic execution of the LLVM IR (clang -O1) of all 197 real emulator kernels with own IR executor + z3; closed forms proved equal lane by lane to reference semantics written from the documentation; FP via z3 FP theory with congruence abstraction',
+             text='Every kernel, every operand value (solver), n in 1..4 lanes, symbolic chunk offset (position independence); interpreter validated against the natively compiled kernels on each run.',
+             note='reference = engines/orcref.py (documentation decisions listed in evidence); shifts limited to 0..width-1; ldres positions enumerated with symbolic array contents; NaN compared by NaN-ness.', ref='DESIGN.md#c02'),
+ 'C03': dict(cat='translation_validation', engine='x86sym', technique='same symbolic machine-code executions as C01; every load/store event of every feasible path is checked against the entitlement derived from the opcode definitions (oracle read set, [0,n*size) for destinations); alignment obligations of aligned-only instructions decided by z3',
+             text='No access outside the entitled bytes for any n<=bound, any base alignment, 1-2 rows; no store to a source; aligned-only instructions provably aligned.',
+             note='machine code only (generated C and emulator kernels: access footprints in C04/C02); speculative reads and prefetch hints ignored.', ref='DESIGN.md#c03'),
+ 'C10': dict(cat='translation_validation', engine='x86sym', technique='same symbolic executions with the whole entry machine state symbolic; callee-saved registers, rsp, caller stack, DF, MXCSR control bits (for every entry value), MMX state and store targets compared at ret (syntactic, else z3)',
+             text='SysV AMD64 callee obligations on every feasible path of every program of the family on sse/avx/mmx.',
+             note='entry rounding mode fixed to nearest; exception status bits of MXCSR are sticky flags and not part of the contract; upper YMM cleanliness not checked.', ref='DESIGN.md#c10'),
+ 'C11': dict(cat='translation_validation', engine='x86sym', technique='compile with each feature-flag subset and symbolically execute with the matching allowed ISA classes: reaching an instruction outside the set on a feasible path is a fault (decoder classifies per instruction form)',
+             text='quick: all features, minimal, each single feature removed, per target, on a quarter of the family each; thorough: every subset x whole family.',
+             note='ISA classes from the Intel SDM as encoded in engines/x86sym/decoder.py; 32-bit code generation outside; result equality under reduced flags checked in the thorough tier of C01.', ref='DESIGN.md#c11'),
 }
 
 NOT_APPLICABLE = {
